@@ -106,9 +106,15 @@ func verifC05WatchPanel(s *state.Store) memdb.WatchSet {
 }
 
 func verifWatchFired(ws memdb.WatchSet) bool {
-	timeout := make(chan time.Time)
-	close(timeout) // already expired: Watch returns immediately, true = timeout hit = nothing fired
-	return !ws.Watch(timeout)
+	// non-blocking scan of every channel: no timer and no select race between a fired channel and a timeout
+	for ch := range ws {
+		select {
+		case <-ch:
+			return true
+		default:
+		}
+	}
+	return false
 }
 
 func verifC05Attach(x *verifKVMachine, st *verifC05State) {
